@@ -1093,6 +1093,42 @@ theorem C18_fit_cases_multi (before after : List (StopSrc α × Option Int)) (ev
     obtain ⟨t1, t2⟩ := C12.C12_complete_without_stop c R hq
     exact Or.inr ⟨hq, hrs, hrf, t1, by rw [t2]; exact hte⟩
 
+/-- **C18 ↔ C12: the derived requests of several sources.** `multiReq` — callback identities = positions in the list
+`before ++ [evaluator] ++ after`; a source before the evaluator asks on the history without this epoch's evaluation, one after
+it with it, the evaluator never — is an oracle as `C18_fit_cases_multi` wants it: some callback asks at `on_epoch_end(e)` iff
+`multiAsk … e`, nobody asks at any other event or inside a batch. -/
+theorem C18_multiReq_derived (before after : List (StopSrc α)) (ev₀ : AnyEval W α) (wof : Int → W) (c : Train.Cfg)
+    (hc : c.cbs = List.range (before.length + 1 + after.length)) :
+    let R := multiReq before after ev₀ wof c.start
+    (∀ e, Train.reqEv c R (.epochEnd e) = multiAsk before after ev₀ wof c.start e) ∧
+    (Train.reqEv c R .trainStart = false ∧ Train.reqEv c R .trainEnd = false ∧
+      (∀ e, Train.reqEv c R (.epochStart e) = false) ∧
+      (∀ e b, Train.reqEv c R (.batchStart e b) = false ∧ R.mid e b = false ∧ Train.reqEv c R (.batchEnd e b) = false)) := by
+  intro R
+  have h := multiReq_reqEv ev₀ wof before after c hc
+  exact ⟨fun e => h (.epochEnd e), h .trainStart, h .trainEnd, fun e => h (.epochStart e),
+    fun e b => ⟨h (.batchStart e b), rfl, h (.batchEnd e b)⟩⟩
+
+/-- **C18 ↔ C12: `fitRunMulti` is `Train.fit` with the derived requests `multiReq`** (the instance of `C18_fit_cases_multi`
+for the concrete oracle): the epochs fired by EarlyStop's loop with several stop sources are the epochs of the C12 trace, which
+is train-start, those epochs in full, train-end; the final flags agree. -/
+theorem C18_fitRunMulti_is_C12_fit (before after : List (StopSrc α × Option Int)) (ev₀ : AnyEval W α) (wof : Int → W)
+    (c : Train.Cfg) (hc : c.cbs = List.range (before.length + 1 + after.length)) (fired₀ : List Int) (r : MultiState W α)
+    (hrun : fitRunMulti ⟨ev₀, before, after, false, fired₀⟩
+      ((Train.epochRange c.start c.epochs).map (fun e => (e, wof e))) = .ok r) :
+    let R := multiReq (before.map Prod.fst) (after.map Prod.fst) ev₀ wof c.start
+    ∃ run, r.fired = fired₀ ++ run ∧
+      Train.events (Train.fit c R false).1 =
+        Train.Event.trainStart :: (run.flatMap (fun e => C12.epochBlock e c.numBatches) ++ [Train.Event.trainEnd]) ∧
+      (Train.fit c R false).2.stop = r.stop ∧
+      (∃ last, run = Train.epochRange c.start last ∧ last ≤ c.epochs ∧ (r.stop = false → last = c.epochs)) := by
+  intro R
+  obtain ⟨hee, hother⟩ := C18_multiReq_derived (before.map Prod.fst) (after.map Prod.fst) ev₀ wof c (by simpa using hc)
+  rcases C18_fit_cases_multi before after ev₀ wof c R fired₀ r hee hother hrun with
+    ⟨e, _, h2, _, _, _, hrs, hrf, t1, t2⟩ | ⟨_, hrs, hrf, t1, t2⟩
+  · exact ⟨_, hrf, t1, by rw [t2, hrs], e, rfl, h2, fun h => by rw [hrs] at h; simp at h⟩
+  · exact ⟨_, hrf, t1, by rw [t2, hrs], c.epochs, rfl, Int.le_refl _, fun _ => rfl⟩
+
 end tie
 
 /-- **C18 stop trace.** The hypotheses of `C18_first_stop` (ℝ; any value sequence `wof`, patience `p ≥ 1`, periods ≥ 1, any
@@ -1358,6 +1394,11 @@ position 1 of the callback list) -/
 example := C18_stop_trace (exStopper .absolute 0.01) 1 (Nat.le_refl 1) rfl (by simp [exStopper]) true (Mof := f15) (Vof := f15)
   (fun e => e) exCfg18 1 (by decide) (exEval f15) []
   ⟨by simp, by simp [MetricEvaluator.names, Dict.keys], by simp, by simp [exStopper], by simp [exStopper], rfl⟩
+
+/-- the hypotheses of `C18_multiReq_derived` / `C18_fitRunMulti_is_C12_fit` are met by the callback list
+`[evaluator, stopper (patience 1), stopper (patience 2), requester at epoch 2]` (identities = positions 0..3) -/
+example := C18_multiReq_derived (α := ℝ) [] [.stopper (exStopper .absolute 0.01), .stopper (exStopper2 .absolute 0.01), .request [2]]
+  (exEval f15) (fun e => e) ⟨1, 4, 2, [0, 1, 2, 3], false, false⟩ (by decide)
 
 end C18
 end QV.Props
